@@ -41,10 +41,12 @@ Definition term_matches (labels : list (atom * atom)) (t : lterm) : bool :=
 
 Definition sel := list (list lterm).     (* OR of ANDs; [] matches everything *)
 
+(* an ID query (regexp ^(id1|id2|..)$) is written as a term on the reserved key 0 (the empty string, never a label key):
+   the resource id is visible to the terms as the value of that key. ID query AND (q1 OR q2 ..) = (idterm::q1) OR (idterm::q2) .. *)
 Definition sel_matches (s : sel) (r : res) : bool :=
   match s with
   | [] => true
-  | _ => existsb (fun q => forallb (term_matches (r_labels r)) q) s
+  | _ => existsb (fun q => forallb (term_matches ((0%N, r_id r) :: r_labels r)) q) s
   end.
 
 (* ---- what a subscriber sees ------------------------------------------------------------------ *)
